@@ -65,7 +65,12 @@ _SCN_BRANCH = {
 }
 _CTX_OP = {"actor": "lives", "object": "object", "performer": "performer"}
 _ROUTINE_KIND = {"actor": SsbRoutineType.ACTOR, "object": SsbRoutineType.OBJECT, "performer": SsbRoutineType.PERFORMER}
-RESERVED_PLAIN_OP_NAMES = set(OPS_WITH_JUMP_TO_MEM_OFFSET) | set(STOP_OPS)
+# Opcodes that have a spelling of their own (jumps, branches, cases, calls: labels and block headers; Return / End / Hold: the
+# keywords) can not be written as plain operations.  JumpCommon and Destroy end the flow of a routine as well (machine.STOP_OPS)
+# but the language has no other spelling for them than a plain operation `JumpCommon(n);` / `Destroy();` - and the decompiler
+# prints them like that -, so they are plain operations after which nothing of the routine is performed.
+FLOW_ENDING_PLAIN_OPS = ("JumpCommon", "Destroy")
+RESERVED_PLAIN_OP_NAMES = (set(OPS_WITH_JUMP_TO_MEM_OFFSET) | set(STOP_OPS)) - set(FLOW_ENDING_PLAIN_OPS)
 
 
 @dataclass(frozen=True)
@@ -249,7 +254,10 @@ class _Builder:
 
     def stmt(self, s: Any, k: Hashable, env: _Env) -> Hashable:
         if isinstance(s, A.Op):
-            n = self.add("op", self.plain_op_label(s, env), (k,), s)
+            if s.name in FLOW_ENDING_PLAIN_OPS:
+                n = self.add("stop", self.plain_op_label(s, env), (), s)
+            else:
+                n = self.add("op", self.plain_op_label(s, env), (k,), s)
             if s.ctx is not None:
                 n = self.add("op", self.ctx_label(s.ctx, env), (n,), s)
             return n
